@@ -371,6 +371,22 @@ fn print_first_char_formatting_chars(
     }
 }
 
+trait AbsIfZero {
+    fn abs_if_zero(&self) -> Self;
+}
+
+impl AbsIfZero for f32 {
+    fn abs_if_zero(&self) -> Self {
+        if *self == 0.0 { 0.0 } else { *self }
+    }
+}
+
+impl AbsIfZero for f64 {
+    fn abs_if_zero(&self) -> Self {
+        if *self == 0.0 { 0.0 } else { *self }
+    }
+}
+
 pub trait PrintHelper {
     fn print_number<V: Display>(
         &mut self,
@@ -397,8 +413,9 @@ impl<T: Printer + ?Sized> PrintHelper for T {
 
     fn print_variant(&mut self, v: &Variant) -> std::io::Result<usize> {
         match v {
-            Variant::VSingle(f) => self.print_number(f, *f >= 0.0),
-            Variant::VDouble(d) => self.print_number(d, *d >= 0.0),
+            // a negative zero is printed as zero (not with a leading space *and* a minus)
+            Variant::VSingle(f) => self.print_number(f.abs_if_zero(), *f >= 0.0),
+            Variant::VDouble(d) => self.print_number(d.abs_if_zero(), *d >= 0.0),
             Variant::VString(s) => self.print(s),
             Variant::VInteger(i) => self.print_number(i, *i >= 0),
             Variant::VLong(l) => self.print_number(l, *l >= 0),
